@@ -240,6 +240,9 @@ func runCommand(env *Env, text string, cfg CfgSpec, now []int, c CmdSpec, cpus i
 	t0 := mkTime(now[0], now[1], now[2], now[3], now[4])
 	opts := CLIOpts{Config: cfg.Ini(), Now: t0, Cpus: cpus}
 	if c.Kind == "pause" {
+		// the pause starts somewhere inside a minute: elapsed WHOLE minutes, not minute boundaries crossed, are what counts
+		t0 = t0.Add(gotime.Duration((now[3]*13+now[4]*7+len(text))%60) * gotime.Second)
+		opts.Now = t0
 		script := []gotime.Time{t0, t0}
 		for i, d := range c.Ticks {
 			secs := d*60 + (i*7)%60
